@@ -1384,6 +1384,14 @@ func (f *fragment) rangeLT(bitDepth uint, predicate int64, allowEquality bool) (
 
 // rangeLTUnsigned returns all bits LT/LTE the predicate without considering the sign bit.
 func (f *fragment) rangeLTUnsigned(filter *Row, bitDepth uint, predicate uint64, allowEquality bool) (*Row, error) {
+	// Without value planes every column in the filter holds 0.
+	if bitDepth == 0 {
+		if predicate > 0 || allowEquality {
+			return filter, nil
+		}
+		return NewRow(), nil
+	}
+
 	keep := NewRow()
 
 	// Filter any bits that don't match the current bit value.
@@ -1452,6 +1460,14 @@ func (f *fragment) rangeGT(bitDepth uint, predicate int64, allowEquality bool) (
 }
 
 func (f *fragment) rangeGTUnsigned(filter *Row, bitDepth uint, predicate uint64, allowEquality bool) (*Row, error) {
+	// Without value planes every column in the filter holds 0.
+	if bitDepth == 0 {
+		if predicate == 0 && allowEquality {
+			return filter, nil
+		}
+		return NewRow(), nil
+	}
+
 	keep := NewRow()
 
 	// Filter any bits that don't match the current bit value.
